@@ -85,7 +85,62 @@ class Poly(object):
         return not self.t
 
 
-def to_poly(e, atoms, limit=200000):
+def canon_key(e, atoms):
+    """Canonical key of an atom: applications of uninterpreted functions are
+    keyed by the polynomial normal forms of their arguments, so f(q*s) and
+    f(s*q) are the same indeterminate."""
+    if z3.is_app(e) and e.num_args() > 0 and e.decl().kind() == z3.Z3_OP_UNINTERPRETED:
+        parts = []
+        for a in e.children():
+            if z3.is_real(a) or z3.is_int(a):
+                try:
+                    p = reduce_trig(cancel_inverses(to_poly(a, atoms)), _ctx["pairs"])
+                    parts.append(repr(sorted((m, str(c)) for m, c in p.t.items())))
+                    continue
+                except NotPolynomial:
+                    pass
+            parts.append(a.sexpr())
+        return "%s(%s)" % (e.decl().name(), ";".join(parts))
+    return e.sexpr()
+
+
+inv_of = {}        # atom index of inv(x) -> atom index of x
+_ctx = {"pairs": []}   # (sin index, cos index) pairs known while converting (set by decide)
+
+
+def perfect_square_root(P):
+    """Poly t with t^2 == P if P is a single monomial with a square coefficient and even exponents."""
+    import math
+    if len(P.t) != 1:
+        return None
+    (m, c), = P.t.items()
+    if c <= 0 or any(e % 2 for v, e in m):
+        return None
+    rn, rd = math.isqrt(c.numerator), math.isqrt(c.denominator)
+    if rn * rn != c.numerator or rd * rd != c.denominator:
+        return None
+    return Poly({tuple((v, e // 2) for v, e in m): Fraction(rn, rd)})
+
+
+def cancel_inverses(p):
+    """x * inv(x) -> 1 inside every monomial."""
+    out = Poly()
+    for m, c in p.t.items():
+        d = dict(m)
+        for iv, v in inv_of.items():
+            if iv in d and v in d:
+                k = min(d[iv], d[v])
+                d[iv] -= k
+                d[v] -= k
+                if d[iv] == 0:
+                    del d[iv]
+                if d[v] == 0:
+                    del d[v]
+        out = out + Poly({tuple(sorted(d.items())): c})
+    return out
+
+
+def to_poly(e, atoms, limit=30000):
     """z3 real/int term -> Poly; atoms: dict sexpr -> (index, term)."""
     memo = {}
 
@@ -117,6 +172,26 @@ def to_poly(e, atoms, limit=200000):
                         raise NotPolynomial("polynomial too large")
             elif kind == z3.Z3_OP_DIV and _num(ch[1]) not in (None, 0):
                 r = walk(ch[0]).scale(1 / _num(ch[1]))
+            elif kind == z3.Z3_OP_DIV and _num(ch[1]) is None:
+                # a / b with a symbolic divisor: a * inv(b), inv(b) an indeterminate keyed
+                # by the normal form of b (monomial divisors are split into their factors)
+                den = walk(ch[1])
+                r = walk(ch[0])
+                if len(den.t) == 1:
+                    (m, c), = den.t.items()
+                    r = r.scale(1 / c)
+                    for v, e_ in m:
+                        key = "inv!%d" % v
+                        if key not in atoms:
+                            atoms[key] = (len(atoms), z3.Real("inv!%d!%d" % (v, len(atoms))))
+                            inv_of[atoms[key][0]] = v
+                        r = r * Poly({((atoms[key][0], e_),): Fraction(1)})
+                else:
+                    key = "inv!poly!" + repr(sorted((mm, str(cc)) for mm, cc in den.t.items()))
+                    if key not in atoms:
+                        atoms[key] = (len(atoms), z3.Real("invp!%d" % len(atoms)))
+                    r = r * Poly.var(atoms[key][0])
+                r = cancel_inverses(r)
             elif kind == z3.Z3_OP_TO_REAL:
                 r = walk(ch[0])
             elif kind == z3.Z3_OP_POWER and _num(ch[1]) is not None and _num(ch[1]).denominator == 1 \
@@ -126,10 +201,19 @@ def to_poly(e, atoms, limit=200000):
                 for _ in range(int(_num(ch[1]))):
                     r = r * b
             else:
-                s = e.sexpr()
-                if s not in atoms:
-                    atoms[s] = (len(atoms), e)
-                r = Poly.var(atoms[s][0])
+                r = None
+                if e.decl().name() == "sqrt" and e.num_args() == 1:
+                    # sqrt(t^2) = t for t >= 0 (stated assumption), radicand taken modulo the trig relations
+                    try:
+                        P = reduce_trig(cancel_inverses(walk(e.arg(0))), _ctx["pairs"])
+                        r = perfect_square_root(P)
+                    except NotPolynomial:
+                        r = None
+                if r is None:
+                    s = canon_key(e, atoms)
+                    if s not in atoms:
+                        atoms[s] = (len(atoms), e)
+                    r = Poly.var(atoms[s][0])
         else:
             raise NotPolynomial("unsupported term")
         memo[k] = r
@@ -219,6 +303,19 @@ def combine_exp(p, atoms):
     return out
 
 
+def substitute_var(p, var, repl):
+    """Replace indeterminate `var` by polynomial `repl` in p."""
+    out = Poly()
+    for m, c in p.t.items():
+        d = dict(m)
+        e = d.pop(var, 0)
+        term = Poly({tuple(sorted(d.items())): c})
+        for _ in range(e):
+            term = term * repl
+        out = out + term
+    return out
+
+
 def split_goal(goal):
     """Conjunction of equalities -> list of (lhs, rhs) or None."""
     if z3.is_and(goal):
@@ -247,16 +344,37 @@ def decide(goal, trig_pairs=()):
     if eqs is None:
         return "unknown", None
     atoms = {}
+    _ctx["pairs"] = []
     try:
-        diffs = [to_poly(a, atoms) - to_poly(b, atoms) for a, b in eqs]
         pairs = []
         for s, c in trig_pairs:
             ps, pc = to_poly(s, atoms), to_poly(c, atoms)
             # both must be single atoms
             (ms,), (mc,) = list(ps.t), list(pc.t)
             pairs.append((ms[0][0], mc[0][0]))
+        _ctx["pairs"] = pairs
+        diffs = [to_poly(a, atoms) - to_poly(b, atoms) for a, b in eqs]
     except (NotPolynomial, ValueError):
+        _ctx["pairs"] = []
         return "unknown", None
+    _ctx["pairs"] = []
+    # sqrt atoms whose radicand is a perfect-square monomial after the trig reduction
+    # (e.g. sqrt(q^2 (a^2+b^2+c^2)) with a unit vector): sqrt(t^2) = t for t >= 0
+    # (stated assumption: q and the other factors are non-negative)
+    import math
+    for sx, (i, t) in list(atoms.items()):
+        if z3.is_app(t) and t.decl().name() == "sqrt" and t.num_args() == 1:
+            try:
+                P = reduce_trig(cancel_inverses(to_poly(t.arg(0), atoms)), pairs)
+            except NotPolynomial:
+                continue
+            if len(P.t) == 1:
+                (m, c), = P.t.items()
+                if c > 0 and all(e % 2 == 0 for v, e in m):
+                    rn, rd = math.isqrt(c.numerator), math.isqrt(c.denominator)
+                    if rn * rn == c.numerator and rd * rd == c.denominator:
+                        mono = Poly({tuple((v, e // 2) for v, e in m): Fraction(rn, rd)})
+                        diffs = [substitute_var(d, i, mono) for d in diffs]
     # sqrt atoms: s^2 -> radicand
     sq = {}
     for sx, (i, t) in list(atoms.items()):
@@ -267,7 +385,7 @@ def decide(goal, trig_pairs=()):
                 pass
     bad = []
     for d in diffs:
-        r = reduce_trig(d, pairs)
+        r = reduce_trig(cancel_inverses(d), pairs)
         if sq:
             r = reduce_trig(reduce_sqrt(r, sq), pairs)
         r = combine_exp(r, atoms)
